@@ -514,7 +514,7 @@ func genOpts(cfg vmx.Cfg, noAlias bool) gen.Opts {
 
 func drawSnap(t *rapid.T, noAlias bool) Case {
 	c := Case{Cfg: vmx.DrawCfg(t, true)}
-	c.Mode = rapid.SampledFrom([]string{"map", "map", "values"}).Draw(t, "mode")
+	c.Mode = rapid.SampledFrom([]string{"map", "map", "values", "map-used", "map-used-read", "map-used-del"}).Draw(t, "mode")
 	g := gen.NewG(t, genOpts(c.Cfg, noAlias), &gen.Env{})
 	b := &builder{t: t, g: g, multiKey: rapid.Bool().Draw(t, "multiKey")}
 	nseg := rapid.IntRange(1, 5).Draw(t, "nseg")
@@ -618,7 +618,7 @@ func drawValue(t *rapid.T, avoidDagNow func() bool) Case {
 	o.SideFx = false
 	g := gen.NewG(t, o, &gen.Env{})
 	b := &builder{t: t, g: g, multiKey: rapid.IntRange(0, 2).Draw(t, "multiKey") != 0}
-	for _, n := range []string{"x", "s1", "s2"} {
+	for _, n := range []string{"x", "s1", "s2", "c1"} {
 		g.Reserve(n) // the value and its shared parts: never named or reassigned by the shared generator
 	}
 	kind := rapid.SampledFrom([]string{"tree", "tree", "tree", "dag", "dag", "cycle", "cycle", "nonfinite", "computed"}).Draw(t, "valueKind")
@@ -658,6 +658,20 @@ func drawValue(t *rapid.T, avoidDagNow func() bool) Case {
 		if b.intn(3, "dagInnerContainer") != 0 && inner.K != "arr" && inner.K != "dict" {
 			inner = gen.N("arr", inner)
 		}
+		if b.intn(3, "dagComputed") == 0 {
+			// the shared part holds a computed value (with or without attributes of its own): one value object
+			// reached along several paths
+			build = append(build, &gen.Node{K: "setc", S: "c1", Kids: []*gen.Node{g.Expr(gen.TInt, 1)}})
+			for i, na := 0, b.intn(3, "dagCompAttrs"); i < na; i++ {
+				build = append(build, &gen.Node{K: "setca", S: "c1", Names: []string{[]string{"x", "y", "hp"}[i]}, Kids: []*gen.Node{b.tree(1)}})
+			}
+			raw := &gen.Node{K: "raw", S: "c1"}
+			if b.intn(2, "dagCompInDict") == 0 {
+				inner = gen.N("dict", gen.Str("k", 0), raw)
+			} else {
+				inner = gen.N("arr", raw, inner)
+			}
+		}
 		build = append(build, gen.Set(t1, inner))
 		mid := gen.N("arr", gen.Var(t1), b.leaf(), gen.Var(t1))
 		if b.intn(2, "dagMidDict") == 0 {
@@ -667,6 +681,10 @@ func drawValue(t *rapid.T, avoidDagNow func() bool) Case {
 		if b.intn(2, "dagLevels") == 0 {
 			build = append(build, gen.Set(t2, mid))
 			lit = gen.N("arr", gen.Var(t2), gen.Var(t1), gen.Var(t2))
+		} else if mid.K == "arr" && b.intn(3, "dagConcat") == 0 {
+			// concatenation copies the element references: every element of s2 occurs twice in x
+			build = append(build, gen.Set(t2, mid))
+			lit = gen.Bin("+", gen.Var(t2), gen.Var(t2))
 		}
 		build = append(build, gen.Set(name, lit))
 		lit = nil // the literal's shape no longer tells the paths
